@@ -6,7 +6,7 @@ from harness import common
 PROP = 'C04'
 RULE = ("write histories over position-coded content (byte i of the stream is a fixed function of i): every residue "
         "of bytes-already-written mod 1012 reached by 3 chunkings x boundary next-write lengths (quick) or every next "
-        "length 0..3036 (thorough), random histories, one-shot blocker on every length around block edges; a case is "
+        "length 0..3036 (thorough), random histories, one-shot blocker on every length around block edges and on inputs past 64 KiB, single writes of up to 1100 blocks; a case is "
         "non-trivial when the history crosses at least one block boundary or ends exactly on one; distinct = distinct "
         "(history, finaliser)")
 TRUSTED = ["Model/Block1014.lean models Block1014.write/finalise/seek/close and block_1014 (hand-written; tied by "
@@ -139,6 +139,12 @@ def explore(run, tier):
         cases.append({'k': 'stream', 'lens': lens, 'fin': rng.choice(fins)})
     for n in list(range(0, 40)) + list(range(1000, 1030)) + list(range(2010, 2040)) + list(range(3030, 3040)):
         cases.append({'k': 'oneshot', 'n': n})
+    # large inputs: more than 64 KiB through the one-shot blocker (chunked implementations), single writes of tens of
+    # blocks up to a thousand blocks (recursive / per-block implementations), many blocks over several writes
+    for n in (65535, 65536, 65537, 65780, 70000, 131072, 131073, 200000):
+        cases.append({'k': 'oneshot', 'n': n})
+    for lens in ([65536], [70000], [131073], [1012 * 1100 + 7], [500, 1012 * 1050], [30000, 40000, 1], [1012 * 64, 5]):
+        cases.append({'k': 'stream', 'lens': lens, 'fin': 'f'})
     for h in ['', '40', '40' * 1012, '40' * 1013, '00' * 1012 + '40', '40' * 2024]:
         cases.append({'k': 'oneshot', 'hex': h})
         cases.append({'k': 'stream', 'lens': [], 'fin': 'f'})
